@@ -108,7 +108,7 @@ impl Prop for C11 {
     }
 
     fn cases(tier: Tier) -> u64 {
-        tier.pick(100_000, 2_000_000)
+        tier.pick(100_000, 20_000_000)
     }
 
     fn enumerate(tier: Tier) -> Vec<Case> {
